@@ -43,6 +43,11 @@ SPEC = dict(
           "After every Ensure also all tombs with their cleanup flag. Two scripted scenarios reproduce a cleanup goroutine next to "
           "an executing update-gadget-assets handler (same pass; later pass after Change.Abort of a change with a done "
           "copy-snap-data task) - they run in `run` (handler monitor, quiet) and in `cleanup` (cleanup monitor, known finding). "
+          "Abort family (scripted, run): for each of 8 conflicting pairs (two hooks of one snap, connect/disconnect, "
+          "setup-profiles/auto-connect, two prerequisites, gadget update vs other in both directions, two gadget updates, hook "
+          "vs gadget update) the first handler is executing when its change is aborted by the user (Change.Abort) or its lane "
+          "by a failing sibling task, the conflicting task of another change becomes runnable, two Ensure passes, release, two "
+          "more; stubs keep executing after tomb.Kill. Random scripts also abort changes (10%) and let handlers fail (10%). "
           "cleanup: the scripted scenarios plus random scenarios that always contain a cleanup-capable change. "
           "Non-trivial = a predicate returned true (blocked) / a pass left a runnable task idle (run)."),
     exhaustive=dict(quick=True, thorough=True),
@@ -56,6 +61,7 @@ SPEC = dict(
         "PARTIAL w.r.t. the Go runtime: the theorems are about r.tombs (tasks with a do/undo goroutine). That this is the set of executing handlers at every instant relies on the runner's locking (Ensure holds r.mu and the state lock during the whole pass; a finishing goroutine deletes its tomb under both); modelled by atomic EEnsure / EDone events, observed by the driver's handler-start snapshots, not verified",
         "KNOWN FINDING cleanup-starts-next-to-gadget-update: TaskRunner.clean neither consults the blocked predicates nor adds to `running`, so a cleanup goroutine can start in the same pass as, or while, update-gadget-assets executes (C07_gadget_alone_refuted_by_cleanup, reproduced on the real runner on every run). C07_gadget_alone is proved for histories without cleanups; among do/undo handlers the update is always alone (C07_gadget_alone_among_handlers_partial); it is never started while any tomb exists (C07_gadget_waits_for_running). The driver uses a stub cleanup registered with AddCleanup for the real kind copy-snap-data; real kinds with cleanups: copy-snap-data, prepare-remodeling, set-model, create-recovery-system, finalize-recovery-system",
         "a run-hook task whose hook-setup cannot be read is not serialized by the hook predicate (Get error => not blocked / ignored), as in the code",
+        "stub handlers ignore tomb.Dying() so that a handler keeps executing after its task was aborted (real handlers are only asked to stop); Change.Abort in random scripts is skipped when the change already has a Done task (DESIGN.md finding 11: Abort can panic there)",
         "which tasks are candidates in a pass (status, wait/halt dependencies, scheduled time) is an arbitrary input of the model (any list of candidates in any order), not modelled",
         "TaskRunner.SetBlocked (replaces all predicates) is not used by production code and not modelled",
     ],
